@@ -527,11 +527,13 @@ Lemma step_lst s e x :
   sst (lst (step s e).1) root = Some x ->
   sst (lst s) root = Some x \/ sst (srv s) root = Some x.
 Proof.
-  destruct e as [q a|pg q ph|pg q ph|pg|q p|q p|q|q|q|i|i c]; simpl.
+  destruct e as [q a|pg q ph|pg q ph|pg|pg|pg q|q p|q p|q|q|q|i|i c]; simpl.
   - by left.
   - by left.
   - repeat case_match; simpl; by left.
   - repeat case_match; simpl; by left.
+  - by left.
+  - by left.
   - repeat case_match; simpl; by left.
   - repeat case_match; simpl; by left.
   - by left.
@@ -564,7 +566,7 @@ Qed.
 Lemma step_absent s e q x :
   sst (srv s) q = None -> sst (srv (step s e).1) q = Some x -> x = SEmpty.
 Proof.
-  intros Ha Hx. destruct e as [q0 a|pg q0 ph|pg q0 ph|pg|q0 p|q0 p|q0|q0|q0|i|i c];
+  intros Ha Hx. destruct e as [q0 a|pg q0 ph|pg q0 ph|pg|pg|pg q0|q0 p|q0 p|q0|q0|q0|i|i c];
     try (eapply (step_nonproc_new s); [| |exact Ha|exact Hx]; done).
   - simpl in Hx. rewrite proc_absent in Hx by done. done.
   - simpl in Hx. rewrite procF_sst in Hx. destruct (decide (q = c)) as [->|Hne].
@@ -1015,6 +1017,7 @@ Definition benign (s : st) (e : ev) : Prop :=
   match e with
   | EPgUpd pg q _ => forall q0 ph0, pgl s !! pg = Some (q0, ph0) -> q0 = q
   | ELSync q => is_Some (srv s !! q) \/ lst s !! q = None
+  | EPgDelLate pg q => forall ph, pgl s !! pg <> Some (q, ph)   (* the store really dropped it *)
   | _ => True
   end.
 Fixpoint benign_hist (s : st) (h : list ev) : Prop :=
@@ -1092,7 +1095,7 @@ Qed.
 
 Lemma idx_complete_step s e : idx_complete s -> benign s e -> idx_complete (step s e).1.
 Proof.
-  intros C B. destruct e as [q a|pg q ph|pg q ph|pg|q p|q p|q|q|q|i|i c]; simpl in *.
+  intros C B. destruct e as [q a|pg q ph|pg q ph|pg|pg|pg q|q p|q p|q|q|q|i|i c]; simpl in *.
   - exact C.
   - intros pg' q' ph' H. simpl in *. apply idx_add_In.
     destruct (decide (pg' = pg)) as [->|Hne].
@@ -1113,6 +1116,11 @@ Proof.
     + by rewrite lookup_delete in H.
     + rewrite lookup_delete_ne in H by done. unfold idx_del. apply filter_In. split; [eauto|].
       rewrite bool_decide_false; [done|]. congruence.
+  - intros pg' q' ph' H. simpl in *. destruct (decide (pg' = pg)) as [->|Hne].
+    + by rewrite lookup_delete in H.
+    + rewrite lookup_delete_ne in H by done. eauto.
+  - intros pg' q' ph' H. simpl in *. unfold idx_del. apply filter_In. split; [eauto|].
+    rewrite bool_decide_false; [done|]. intros [= -> ->]. by apply (B ph').
   - destruct (srv s !! q); exact C.
   - destruct (srv s !! q); exact C.
   - exact C.
@@ -1334,11 +1342,13 @@ Qed.
 
 Lemma wq_wf_step s e : wq_wf s -> wq_wf (step s e).1.
 Proof.
-  intros W. destruct e as [q a|pg q ph|pg q ph|pg|q p|q p|q|q|q|i|i c]; simpl.
+  intros W. destruct e as [q a|pg q ph|pg q ph|pg|pg|pg q|q p|q p|q|q|q|i|i c]; simpl.
   - apply wq_wf_push; [done|]. simpl. done.
   - apply wq_wf_push; [done|]. done.
   - repeat case_match; simpl; try done; apply wq_wf_push; done.
   - repeat case_match; simpl; try done; apply wq_wf_push; done.
+  - done.
+  - apply wq_wf_push; done.
   - repeat case_match; simpl; done.
   - repeat case_match; simpl; done.
   - done.
@@ -1444,13 +1454,15 @@ Lemma step_wq_in s e x :
   In x (wq (step s e).1) ->
   In x (wq s) \/ (exists r, In r (wq s) /\ x = retry r) \/ born s e x.
 Proof.
-  intros H. destruct e as [q a|pg q ph|pg q ph|pg|q p|q p|q|q|q|i|i c]; simpl in H.
+  intros H. destruct e as [q a|pg q ph|pg q ph|pg|pg|pg q|q p|q p|q|q|q|i|i c]; simpl in H.
   - apply in_app_or in H as [H|H]; [by left|]. destruct H as [<-|[]]. right. right. left. eauto.
   - apply in_app_or in H as [H|H]; [by left|]. destruct H as [<-|[]]. right. right. right. by left.
   - repeat case_match; simpl in H;
     first [by left | (apply in_app_or in H as [H|H]; [by left|]; destruct H as [<-|[]]; right; right; right; by left)].
   - repeat case_match; simpl in H;
     first [by left | (apply in_app_or in H as [H|H]; [by left|]; destruct H as [<-|[]]; right; right; right; by left)].
+  - by left.
+  - apply in_app_or in H as [H|H]; [by left|]. destruct H as [<-|[]]. right. right. right. by left.
   - repeat case_match; simpl in H; by left.
   - repeat case_match; simpl in H; by left.
   - by left.
